@@ -95,3 +95,143 @@ Theorem u3_controlled_rule_when_phase_trivial : forall theta phi lambda_,
   = ctrl1 (u3_matrix theta phi lambda_).
 Proof. exact u3_controlled_when. Qed.
 Print Assumptions u3_controlled_rule_when_phase_trivial.
+
+(* ------------------------------------------------------------------------------------------------------------------
+   The code itself.  Gen/DecomposeGen.v is regenerated on every run by tr/tr_decompose.py from
+   decompositions/_decomposition.py, decompositions/_orquestra_decompositions.py and circuits/_builtin_gates.py
+   (construct by construct; meaning of the Python building blocks: Circ/DecomposeTrSupport.v).  The theorems below
+   state that the generated functions ARE the model functions the theorems above are about. *)
+Require Import Coq.Strings.String.
+Require Import OQ.Circ.DecomposeTrSupport OQ.Gen.DecomposeGen OQ.Circ.DecomposeGenProofs.
+
+(* decompose_operation / decompose_operations, any operation type, any rule list whose methods return normally *)
+Theorem generated_decompose_operation_is_model : forall (Op : Type) (rules : list (rule Op)) (o : Op),
+  decompose_operation_gen o (map rule_py rules) = Ok (decompose_operation Op rules o).
+Proof. exact decompose_operation_gen_eq. Qed.
+Print Assumptions generated_decompose_operation_is_model.
+
+Theorem generated_decompose_operations_is_model : forall (Op : Type) (rules : list (rule Op)) (ops : list Op),
+  decompose_operations_gen ops (map rule_py rules) = Ok (decompose_operations Op rules ops).
+Proof. exact decompose_operations_gen_eq. Qed.
+Print Assumptions generated_decompose_operations_is_model.
+
+(* ... and through any description of Python-side operations by model-side operations under which every Python rule
+   (whose methods may raise elsewhere) simulates a model rule on the operations satisfying an invariant *)
+Theorem generated_decompose_operations_simulates_model :
+  forall (POp MOp : Type) (abs : POp -> MOp) (Inv : POp -> Prop) Rs rs,
+  Forall2 (simulates abs Inv) Rs rs -> forall ops, Forall Inv ops ->
+  exists out, decompose_operations_gen ops Rs = Ok out
+              /\ map abs out = decompose_operations MOp rs (map abs ops) /\ Forall Inv out.
+Proof. exact decompose_operations_gen_sim. Qed.
+Print Assumptions generated_decompose_operations_simulates_model.
+
+(* the gate prototypes bound in circuits/_builtin_gates.py are the gates the model's description means by U3, RZ, RY *)
+Theorem generated_prototypes_are_described : forall (P : Type) (other_id : pygate P -> nat) k (t p l a : P),
+  desc_gate other_id (ctl k (U3_gen [t; p; l])) = GU3 k t p l
+  /\ desc_gate other_id (ctl k (RZ_gen [a])) = GRZ k a
+  /\ desc_gate other_id (ctl k (RY_gen [a])) = GRY k a.
+Proof. exact (fun P oid k t p l a => conj (desc_gate_U3 P oid k t p l) (conj (desc_gate_RZ P oid k a) (desc_gate_RY P oid k a))). Qed.
+Print Assumptions generated_prototypes_are_described.
+
+(* U3GateToRotation.predicate: on every gate operation it compares names only; it is the model's predicate on every
+   operation in which the name U3 is carried by the built-in gate only *)
+Theorem generated_u3_predicate_on_all_operations : forall (P : Type) (o : pyop P),
+  U3GateToRotation_predicate_gen o = Ok (matches_by_name o).
+Proof. exact predicate_gen_all. Qed.
+Print Assumptions generated_u3_predicate_on_all_operations.
+
+Theorem generated_u3_predicate_is_model : forall (P : Type) (other_id : pygate P -> nat) (o : pyop P),
+  describable o -> U3GateToRotation_predicate_gen o = Ok (u3_pred (desc other_id o)).
+Proof. exact predicate_gen_eq. Qed.
+Print Assumptions generated_u3_predicate_is_model.
+
+(* U3GateToRotation.production: on every gate operation - ValueError unless there are exactly three parameters (or for a
+   ControlledGate object without controls), otherwise RZ(lambda), RY(theta), RZ(phi), controlled like the original, on
+   the original qubits; on every describable matched operation its output is described by the model's production *)
+Theorem generated_u3_production_on_all_operations : forall (P : Type) (o : pyop P),
+  U3GateToRotation_production_gen o =
+  match op_params o with
+  | [t; p; l] =>
+      match op_gate o with
+      | ControlledGate _ k =>
+          if Nat.ltb k 1 then Raise ValueError
+          else Ok (rotations (fun g => ControlledGate g k) t p l (op_qubit_indices o))
+      | _ => Ok (rotations (fun g => g) t p l (op_qubit_indices o))
+      end
+  | _ => Raise ValueError
+  end.
+Proof. exact production_gen_all. Qed.
+Print Assumptions generated_u3_production_on_all_operations.
+
+Theorem generated_u3_production_is_model : forall (P : Type) (other_id : pygate P -> nat) (o : pyop P),
+  describable o -> u3_pred (desc other_id o) = true ->
+  exists l, U3GateToRotation_production_gen o = Ok l /\ map (desc other_id) l = u3_prod (desc other_id o)
+            /\ Forall describable l.
+Proof. exact production_gen_eq. Qed.
+Print Assumptions generated_u3_production_is_model.
+
+Theorem generated_u3_rule_simulates_model : forall (P : Type) (other_id : pygate P -> nat),
+  simulates (desc other_id) describable U3GateToRotation_gen u3_rule.
+Proof. exact u3_rule_gen_simulates. Qed.
+Print Assumptions generated_u3_rule_simulates_model.
+
+(* decompose_orquestra_circuit: the model's decompose_circuit on the description, for every circuit whose recorded
+   width is positive (or that is empty) ... *)
+Theorem generated_decompose_orquestra_circuit_is_model :
+  forall (P : Type) (other_id : pygate P -> nat) Rs rs (c : pycircuit P),
+  Forall2 (simulates (desc other_id) describable) Rs rs ->
+  Forall describable (c_operations c) ->
+  (c_n_qubits c = 0%nat -> c_operations c = []) ->
+  exists c', decompose_orquestra_circuit_gen c Rs = Ok c'
+             /\ (map (desc other_id) (c_operations c'), c_n_qubits c')
+                = decompose_circuit rs (map (desc other_id) (c_operations c), c_n_qubits c)
+             /\ Forall describable (c_operations c').
+Proof. exact decompose_orquestra_circuit_gen_eq. Qed.
+Print Assumptions generated_decompose_orquestra_circuit_is_model.
+
+(* ... in particular with the bundled rule listed any number of times ... *)
+Theorem generated_u3_circuit_decomposition_is_model :
+  forall (P : Type) (other_id : pygate P -> nat) m (c : pycircuit P),
+  Forall describable (c_operations c) -> (c_n_qubits c = 0%nat -> c_operations c = []) ->
+  exists c', decompose_orquestra_circuit_gen c (repeat U3GateToRotation_gen m) = Ok c'
+             /\ (map (desc other_id) (c_operations c'), c_n_qubits c')
+                = decompose_circuit (repeat u3_rule m) (map (desc other_id) (c_operations c), c_n_qubits c)
+             /\ Forall describable (c_operations c').
+Proof. exact decompose_orquestra_circuit_gen_u3. Qed.
+Print Assumptions generated_u3_circuit_decomposition_is_model.
+
+(* ... and with any rules that return normally, on the gate operations themselves *)
+Theorem generated_decompose_orquestra_circuit_pure_rules :
+  forall (P : Type) (rules : list (rule (pyop P))) (c : pycircuit P), c_n_qubits c <> 0%nat ->
+  decompose_orquestra_circuit_gen c (map rule_py rules)
+  = Ok (mk_pycircuit (decompose_operations (pyop P) rules (c_operations c)) (c_n_qubits c)).
+Proof. exact decompose_orquestra_circuit_gen_pure. Qed.
+Print Assumptions generated_decompose_orquestra_circuit_pure_rules.
+
+(* a recorded width of 0 (possible only for a circuit without qubits) is recomputed from the decomposed operations *)
+Theorem generated_decompose_orquestra_circuit_width0 :
+  forall (P : Type) Rs (c : pycircuit P), c_n_qubits c = 0%nat ->
+  decompose_orquestra_circuit_gen c Rs =
+  bind (decompose_operations_gen (c_operations c) Rs) (fun out =>
+  bind (circuit_size_by_operations out) (fun s => Ok (mk_pycircuit out s))).
+Proof. exact decompose_orquestra_circuit_gen_width0. Qed.
+Print Assumptions generated_decompose_orquestra_circuit_width0.
+
+(* the generated functions run: a doubly controlled U3 and an X gate on 5 qubits, the rule listed twice *)
+Example generated_decomposition_runs :
+  decompose_orquestra_circuit_gen
+    (mk_pycircuit [GateOperation (ControlledGate (U3_gen [1%nat; 2%nat; 3%nat]) 2) [4%nat; 0%nat; 2%nat];
+                   GateOperation (MatrixFactoryGate "X" "x_matrix" [] 1 true) [1%nat]] 5)
+    [U3GateToRotation_gen; U3GateToRotation_gen]
+  = Ok (mk_pycircuit [GateOperation (ControlledGate (RZ_gen [3%nat]) 2) [4%nat; 0%nat; 2%nat];
+                      GateOperation (ControlledGate (RY_gen [1%nat]) 2) [4%nat; 0%nat; 2%nat];
+                      GateOperation (ControlledGate (RZ_gen [2%nat]) 2) [4%nat; 0%nat; 2%nat];
+                      GateOperation (MatrixFactoryGate "X" "x_matrix" [] 1 true) [1%nat]] 5).
+Proof. vm_compute. reflexivity. Qed.
+
+Example generated_premises_met :
+  describable (GateOperation (ControlledGate (U3_gen [1%nat; 2%nat; 3%nat]) 2) [4%nat; 0%nat; 2%nat])
+  /\ describable (GateOperation (MatrixFactoryGate "X" "x_matrix" ([] : list nat) 1 true) [1%nat]).
+Proof.
+  split; (split; [cbn; intro E; try discriminate E; eauto | cbn; intros w k E; try discriminate E; injection E as _ <-; repeat constructor]).
+Qed.
